@@ -3,8 +3,9 @@
 Most abstract runs replace points by hand-written stand-ins with their own arithmetic (PV, Vec); that keeps the rules
 independent of Point2D -- and leaves Point2D itself unexamined.  Here a point is an attribute bag (`_x`, `_y`) whose
 Python operators re-enter the interpreter on the *repository's* method of the same name, so `a - b`, `a.cross(b)`,
-`a[0]`, `a == b`, `abs(a)` are decided on what polygon.py says.  The constructor is modelled (validation and the
-denominator cap are the business of C13 / C16): `Point2D(p)` is p, `Point2D(x, y)` a new point.
+`a[0]`, `a == b`, `abs(a)` are decided on what polygon.py says.  (Validation and the
+denominator cap are the business of C13 / C16): `Point2D(p)` is p, `Point2D(x, y)` a new point initialised by the
+repository's own `__init__` (so a result that is routed through the constructor is capped as polygon.py says).
 """
 import math
 from fractions import Fraction as Fr
@@ -55,6 +56,18 @@ class World:
         self.made.append(p)
         return p
 
+    def construct(self, rn, args):
+        """Point2D(x, y) / Point2D(pair): a new point initialised by the repository's own __init__ (so the coordinate cap
+        and the validation are the ones polygon.py states); modelled as a plain pair of coordinates if there is none"""
+        p = self.point(None, None)
+        q = "polygon.Point2D.__init__"
+        if q in self.ctx.model.funcs:
+            rn.call_fn(self.ctx.fn(q), [p] + list(args))
+        else:
+            x, y = args if len(args) == 2 else args[0]
+            p.__dict__["_x"], p.__dict__["_y"] = x, y
+        return p
+
     def hook(self, rn, ev, call, name, recv, args, kwargs):
         if self.extra_hook is not None:
             r = self.extra_hook(rn, ev, call, name, recv, args, kwargs)
@@ -66,11 +79,8 @@ class World:
         if name in ("Point2D", "__class__") or (isinstance(recv, Obj) and str(recv) in ("class:Point2D", "cls:Point2D")):
             if len(args) == 1 and isinstance(args[0], self.Pt):
                 return args[0]                                  # Point2D(p) is p
-            if len(args) == 1:
-                x, y = args[0]
-                return self.point(x, y)
-            if len(args) == 2:
-                return self.point(args[0], args[1])
+            if len(args) in (1, 2):
+                return self.construct(rn, list(args))
         if isinstance(recv, self.Pt) and name and f"polygon.Point2D.{name}" in self.ctx.model.funcs:
             target = self.ctx.fn(f"polygon.Point2D.{name}")
             if target.kind in ("static", "class"):                     # self._as_point(x): no receiver is passed
